@@ -1335,6 +1335,62 @@ func execC19(t *testing.T, p *Plan) *Result {
 		}
 	}
 
+	// ---- (ii-b) restart at every position WHILE THE STORE FAILS one of the reads of the start-up: the server either refuses to start
+	// (and the operator starts it again once the store is back) or starts equal to the original; either way it continues the history
+	// exactly as the original would
+	if k.Restarts && k.Faults {
+		for pos := -1; pos < len(steps)-1; pos++ {
+			base := initial
+			if pos >= 0 {
+				base = ref.worlds[pos]
+			}
+			if len(base.services) == 0 {
+				continue // nothing is read beyond the listing
+			}
+			probe := base.fork()
+			probe.installClock()
+			probe.store.calls = 0
+			if err := probe.newServer(); err != nil {
+				continue
+			}
+			ncalls := probe.store.calls
+			for c := 0; c < ncalls; c++ {
+				for _, kind := range []string{"io", "notfound"} {
+					fw := base.fork()
+					fw.installClock()
+					fw.store.calls = 0
+					fw.store.faultAt, fw.store.faultKind = c, kind
+					err := fw.newServer()
+					refused := err != nil
+					if refused {
+						if err = fw.newServer(); err != nil { // the single fault is spent
+							res.violate(pos+1, "restart-fails", "C19/restart-fails-after-store-recovered", "server re-created over the same store", err.Error(), fmt.Sprintf("start-up fault %s@call%d", kind, c))
+							return res
+						}
+					}
+					res.Extra["startup_fault_placements"]++
+					if fw.store.fired != "" {
+						res.fire("startup_store_err:" + kind)
+					}
+					fw.maybeReg = nil
+					for j := pos + 1; j < len(steps); j++ {
+						exp, obs, dc, leak, well, pan := fw.step(steps[j], res)
+						if !c19CheckStep(res, j, fmt.Sprintf("restart-after-%d with %s@startup-call%d (refused=%v)", pos, kind, c, refused), steps[j], exp, obs, dc, leak, well, pan, false) {
+							res.logf("restart after step %d under start-up fault %s@call%d (%s; refused=%v): step %d expect=%s observed=%s", pos, kind, c, fw.store.fired, refused, j, exp, obs)
+							return res
+						}
+						if obs != ref.outcomes[j] && !dc {
+							res.logf("restart after step %d under start-up fault %s@call%d (%s; refused=%v): step %d original=%s restarted=%s", pos, kind, c, fw.store.fired, refused, j, ref.outcomes[j], obs)
+							res.violate(j, "restart-divergence", "C19/restart-divergence-after-startup-store-error/"+steps[j].Op+"/"+ref.outcomes[j].Class+"->"+obs.Class,
+								"a server that came up while the store failed one read continues the history exactly as the original ("+ref.outcomes[j].String()+")", obs.String(), fmt.Sprintf("restart inserted after step %d, %s@startup-call%d, refused to start=%v", pos, kind, c, refused))
+							return res
+						}
+					}
+				}
+			}
+		}
+	}
+
 	// ---- (iii) one store fault at EVERY store call x kind
 	// The fork starts from the world as it was before the step that issues store call j (server
 	// re-created over that store with faults off), so only the suffix is re-executed.
